@@ -27,6 +27,9 @@ def exc_is(cls, base):
     return False
 
 
+_STR_METHODS = {'startswith', 'endswith', 'split', 'strip', 'replace', 'find', 'rfind', 'join', 'count', 'encode', 'rsplit', 'format', 'lower', 'upper'}
+
+
 class Frame:
     def __init__(self, fi, closure=None, defcls=None):
         self.fi = fi
@@ -133,6 +136,10 @@ class Interp:
         function or allowed by the contract) the path forks; otherwise `cond_ok` becomes a safety obligation."""
         c = sym.simp(cond_ok)
         if z3.is_true(c):
+            return
+        if exc == 'AttributeError' and 'non-object' in what and self.contract.opts.get('assume_children_are_objects'):
+            # type invariant of `_children` (every entry is a node: proved for set_child) used as an assumption
+            self.run.assume(c)
             return
         if fr.catches(exc) or self.eng.contract_allows(self.contract, exc):
             if not self.run.decide(c, what):
@@ -318,10 +325,15 @@ class Interp:
             return self.prim_getattr(v, name, fr, node)
         if not z3.is_true(isref):
             s = sym.simp(sym.is_str(t))
-            if z3.is_true(s):
+            if z3.is_true(s) or not self.run.feasible(z3.Not(sym.is_str(t))):
                 return self.prim_getattr(v, name, fr, node)
-            # attribute access on something that may not be an object: AttributeError unless it is one
-            self.maybe_raise(isref, 'AttributeError', fr, node, f'.{name} on non-object')
+            if self.run.feasible(z3.Not(isref)):
+                if self.run.feasible(sym.is_str(t)) and name in _STR_METHODS:
+                    # may be a string or an object: fork
+                    if self.run.decide(sym.is_str(t), 'is-str'):
+                        return self.prim_getattr(v, name, fr, node)
+                # attribute access on something that may not be an object: AttributeError unless it is one
+                self.maybe_raise(isref, 'AttributeError', fr, node, f'.{name} on non-object')
         if name == 'ayns':
             return AynsV(v)
         if name == '__dict__':
